@@ -47,51 +47,59 @@ func c04Conc(c *Ctx, name string, T int, threads, reqs int, b vsched.Bounds) Sch
 				if v := an.labelTruth(); v != nil {
 					return v
 				}
-				// fetch table: serial -> [obtained_min, obtained_max]
-				type fetch struct{ min, max int64 }
-				fetches := map[string]fetch{}
-				for _, cl := range an.Calls {
-					ri := an.Reqs[cl.Call.Rid]
-					fetches[fmt.Sprint(cl.Call.Serial)] = fetch{cl.Call.ClockBegin, ri.Res.ClockEnd}
-				}
-				for _, rid := range an.Order {
-					r := an.Reqs[rid].Res
-					if r.Status != 200 {
-						return &vsched.Violation{Sig: fmt.Sprintf("status-%d", r.Status), Msg: rid}
-					}
-					if r.XStatus != "hit" {
-						if r.Age != "" {
-							return &vsched.Violation{Sig: "age-on-non-hit", Msg: fmt.Sprintf("request %s labelled %s carries Age %s", rid, r.XStatus, r.Age)}
-						}
-						continue
-					}
-					ser, _, _, _, _, _ := env.ParseSelf(r.Body)
-					f, ok := fetches[ser]
-					if !ok {
-						return &vsched.Violation{Sig: "hit-on-unknown-body", Msg: rid}
-					}
-					// a hit is legitimate iff at some instant of the request the entry was inside its lifetime
-					if r.ClockBegin > f.max+int64(T) {
-						return &vsched.Violation{Sig: "stale-hit", Msg: fmt.Sprintf("request %s began at +%d and was served from cache a response obtained no later than +%d with lifetime %d", rid, r.ClockBegin-vtime.Base, f.max-vtime.Base, T)}
-					}
-					age := int64(0)
-					if r.Age != "" {
-						age, _ = strconv.ParseInt(r.Age, 10, 64)
-					}
-					if age > int64(T) {
-						return &vsched.Violation{Sig: "age-exceeds-T", Msg: fmt.Sprintf("request %s (began +%d, ended +%d) carries Age %d on a response with lifetime %d obtained in [+%d,+%d]", rid, r.ClockBegin-vtime.Base, r.ClockEnd-vtime.Base, age, T, f.min-vtime.Base, f.max-vtime.Base)}
-					}
-					lo := r.ClockBegin - f.max - 1
-					hi := r.ClockEnd - f.min + 1
-					if age < lo || age > hi {
-						return &vsched.Violation{Sig: "age-off-by-more-than-1", Msg: fmt.Sprintf("request %s Age %d, true time since obtained within [%d,%d]", rid, age, lo+1, hi-1)}
-					}
+				if v := freshnessCheck(an, T); v != nil {
+					return v
 				}
 				return nil
 			}
 			return bodies, check, func() string { return an.summary() }
 		},
 	}
+}
+
+// freshnessCheck: interval-sound freshness and Age oracle for concurrent runs (origin sends no Age).
+func freshnessCheck(an *analysis, T int) *vsched.Violation {
+	// fetch table: serial -> [obtained_min, obtained_max]
+	type fetch struct{ min, max int64 }
+	fetches := map[string]fetch{}
+	for _, cl := range an.Calls {
+		ri := an.Reqs[cl.Call.Rid]
+		fetches[fmt.Sprint(cl.Call.Serial)] = fetch{cl.Call.ClockBegin, ri.Res.ClockEnd}
+	}
+	for _, rid := range an.Order {
+		r := an.Reqs[rid].Res
+		if r.Status != 200 {
+			return &vsched.Violation{Sig: fmt.Sprintf("status-%d", r.Status), Msg: rid}
+		}
+		if r.XStatus != "hit" {
+			if r.Age != "" {
+				return &vsched.Violation{Sig: "age-on-non-hit", Msg: fmt.Sprintf("request %s labelled %s carries Age %s", rid, r.XStatus, r.Age)}
+			}
+			continue
+		}
+		ser, _, _, _, _, _ := env.ParseSelf(r.Body)
+		f, ok := fetches[ser]
+		if !ok {
+			return &vsched.Violation{Sig: "hit-on-unknown-body", Msg: rid}
+		}
+		// a hit is legitimate iff at some instant of the request the entry was inside its lifetime
+		if r.ClockBegin > f.max+int64(T) {
+			return &vsched.Violation{Sig: "stale-hit", Msg: fmt.Sprintf("request %s began at +%d and was served from cache a response obtained no later than +%d with lifetime %d", rid, r.ClockBegin-vtime.Base, f.max-vtime.Base, T)}
+		}
+		age := int64(0)
+		if r.Age != "" {
+			age, _ = strconv.ParseInt(r.Age, 10, 64)
+		}
+		if age > int64(T) {
+			return &vsched.Violation{Sig: "age-exceeds-T", Msg: fmt.Sprintf("request %s (began +%d, ended +%d) carries Age %d on a response with lifetime %d obtained in [+%d,+%d]", rid, r.ClockBegin-vtime.Base, r.ClockEnd-vtime.Base, age, T, f.min-vtime.Base, f.max-vtime.Base)}
+		}
+		lo := r.ClockBegin - f.max - 1
+		hi := r.ClockEnd - f.min + 1
+		if age < lo || age > hi {
+			return &vsched.Violation{Sig: "age-off-by-more-than-1", Msg: fmt.Sprintf("request %s Age %d, true time since obtained within [%d,%d]", rid, age, lo+1, hi-1)}
+		}
+	}
+	return nil
 }
 
 func init() {
